@@ -125,6 +125,7 @@ def case_strategy(draw, quick=True):
         'append': app,
         'cache_mb': 1 if pressure else draw(st.sampled_from([1, 1, 2, 2048])),
         'pressure': pressure,
+        'refused_save_first': draw(st.booleans()),
         'read_order': draw(st.sampled_from(['forward', 'backward', 'old_first'])),
     }
 
@@ -217,6 +218,20 @@ def body(ctx: core.Ctx, case: dict):
             elif layout == 'memory_save':
                 store = TrajectoryStore.create(cache_size_mb=2048)
                 add_all(store, case['trajs'])
+                if case.get('refused_save_first') and fdefs:
+                    # a save that is refused (the associated file already exists) must leave the store as it was:
+                    # the following plain save has to persist every field set
+                    blocker = d / 'exists_already.nc'
+                    blocker.write_text('x')
+                    try:
+                        store.save(d / 'unused_base.nc', associated_files=[(blocker, [sc.fs_name(fdefs[0])])])
+                    except core.PASS_THROUGH:
+                        raise
+                    except Exception:  # noqa: BLE001  (the refusal)
+                        labels.add('refused_save_then_save')
+                    else:
+                        ctx.fail('save.refusal_accepted', 'mismatch', 'TrajectoryStore.save', '',
+                                 'save() with an associated file path that already exists was accepted', case)
                 store.save(base)
             elif layout == 'assoc':
                 store = TrajectoryStore.create(
